@@ -8,7 +8,8 @@ TITLE = "Continuum behaves as sorted unit sets per annotator under any history"
 DECIDING = ["M-MODEL", "M-INV", "M-EQ", "M-REJECT"]
 LEVEL = "exploration"
 EXHAUSTIVE = False
-RULE = ("operation histories over {add, add_annotator, remove (present or absent unit), copy, merge in/out of place, +, "
+RULE = ("(c) directed histories: two continua of different sizes, each with a removed far-reaching unit of its own label and "
+        "possibly reset bounds, merged out of place / in place / with + in either direction; (a), (b): operation histories over {add, add_annotator, remove (present or absent unit), copy, merge in/out of place, +, "
         "reset_bounds, new} on a population of live continua, stepped in lock-step with a dict-of-sets model: (a) "
         "EXHAUSTIVE over all histories of length <= 3 (quick) / <= 5 (thorough) on a small alphabet (2 annotators, "
         "segments (0,1),(0,2), labels None/'x': equal segments differing only by label or by None), full observation "
@@ -380,6 +381,33 @@ def random_history(rng, length):
     return ops
 
 
+def asymmetric_merge_history(rng):
+    """Two continua of different sizes, each with a past (a far-reaching unit with a label of its own, removed again;
+    sometimes a reset in between), merged out of place in either direction: units are symmetric under merge, the
+    receiver's bounds and categories are not."""
+    ops = []
+    far = [(-3.0, -1.0), (0.5, 7.25), (1000.0, 16777216.0)]
+    near = [(0.0, 1.0), (0.0, 2.0), (1.0, 2.0)]
+    sizes = rng.choice([(1, 3), (2, 4), (3, 1), (2, 2), (1, 4)])
+    for idx, k in enumerate(sizes):
+        if idx == 1:
+            ops.append(("new",))
+        lab_far = "y" if idx == 0 else "x"
+        seg_far = rng.choice(far)
+        ann_far = rng.choice(RICH_ANN)
+        if rng.random() < 0.8:
+            ops.append(("add", idx, ann_far, seg_far, lab_far))
+        for _ in range(k):
+            ops.append(("add", idx, rng.choice(RICH_ANN), rng.choice(near), rng.choice([None, "x" if idx == 0 else "y"])))
+        if rng.random() < 0.8:
+            ops.append(("remove", idx, ann_far, seg_far, lab_far))
+        if rng.random() < 0.4:
+            ops.append(("reset", idx))
+    i, j = rng.choice([(0, 1), (1, 0)])
+    ops.append(rng.choice([("merge", i, j, False), ("plus", i, j), ("merge", i, j, True)]))
+    return ops
+
+
 def plan(tier, seed):
     n = 4 if tier == "quick" else 16
     shards = [{"env": {}, "params": {"time_budget": 70 if tier == "quick" else 700, "current_every": 50}}
@@ -419,6 +447,11 @@ def run(ctx):
     ctx.note("exhaustive_subfamily_complete", True)
     # (b) random histories under the icontract class invariant
     monitors.install_continuum_invariant("M-INV")
+    for _ in range(ctx.scale(120, 3000)):
+        ops = asymmetric_merge_history(rng)
+        ctx.begin_case({"history": [list(map(_j, op)) for op in ops], "mode": "asymmetric-merge"}, nontrivial=True)
+        ctx.observe("history_length_bucket", "asymmetric-merge")
+        run_history(ctx, ops, check_every=True, where="asymmetric-merge")
     n_hist = ctx.scale(250, 12000)
     for _ in range(n_hist):
         if ctx.out_of_time():
